@@ -903,6 +903,9 @@ class ArrayEvaluator:
     def __eq__(self, value):
         return all(e == value for e in self.x)
 
+    def __ne__(self, value):
+        return all(e != value for e in self.x)
+
     def __le__(self, value):
         return all(e <= value for e in self.x)
 
